@@ -75,7 +75,22 @@ def _case(repo, it, S, spec):
     except Raised as ex:
         return 1, [("construct", f"{kind} {exons} cds={cds} window={window}: {ex.exc_name}", f"{cls}.__init__")]
     modes = [True] + ([False] if window is not None else [])
-    for chrom_mode in modes:
+    first_text = {}
+    # each mode is exported again after the others on the same object: a line is a function of the object and the mode, not
+    # of earlier exports (memoised generators, cached blocks)
+    for rep, chrom_mode in enumerate(modes + list(reversed(modes)) + modes):
+        if rep >= len(modes):
+            k, v = run(it, f, [], {"chromosome_relative_coordinates": chrom_mode}, obj)
+            n += 1
+            try:
+                text = it.builtin("str", [v], {}, None, 0) if k == "ok" else f"raise:{v}"
+            except Raised as ex:
+                text = f"raise:{ex.exc_name}"
+            if chrom_mode in first_text and text != first_text[chrom_mode]:
+                out.append((("chromosome mode" if chrom_mode else "chunk-relative mode") + " repeated export",
+                            f"{'transcript' if kind == 'tx' else 'feature'} {list(exons)} {sn} window={window}: exporting again on the same "
+                            f"object gives {text!r}; the first export gave {first_text[chrom_mode]!r}", f.qual))
+            continue
         n += 1
         off = 0 if chrom_mode else window[0]
         desc = f"{'transcript' if kind == 'tx' else 'feature'} {list(exons)} {sn} cds={list(cds) if cds else None} " \
@@ -93,6 +108,7 @@ def _case(repo, it, S, spec):
         if not isinstance(text, str):
             out.append((key, f"{desc}: str(BED12) is not plain text", "io.bed.bed:BED12.__str__"))
             continue
+        first_text[chrom_mode] = text
         d, why = decode(text)
         if d is None:
             out.append((key + " format", f"{desc}: {text!r} is not a 12-column BED line ({why})", "io.bed.bed:BED12.__str__"))
